@@ -151,6 +151,7 @@ func c12Plan(rng *lib.Rand, idx uint64) *ref.Plan {
 		MaxFields:  4,
 		NoTimeZero: true,
 		TimeModel:  50,
+		RepeatPrev: 8,
 		ForceFields: func(r *lib.Rand, g uint16) []byte {
 			var out []byte
 			if r.Chance(6, 10) {
